@@ -64,10 +64,12 @@ func c11Menu(c lockCfg, thorough bool) func(w *engb.World, st *engb.LState, dept
 	)
 	// a burst that fills a whole delivery batch, to be followed by a later unlock maturing in the same sweep
 	var burst []engb.LOp
-	for i := 0; i < 16; i++ {
+	for i := 0; i < 17; i++ {
 		burst = append(burst, engb.LOp{Kind: "unlock", Val: 0, Token: 0, Amt: "1"})
 	}
-	base = append(base, engb.LBlock{Dt: 1, Ops: burst})
+	// 17 = one more than a delivery batch: one matured unlock stays queued for a block, during
+	// which other kinds of requests (a reward claim shares the delivery queue) are processed
+	base = append(base, engb.LBlock{Dt: 1, Ops: burst}, engb.LBlock{Dt: 1, Ops: []engb.LOp{{Kind: "claim", Val: 0}}})
 	if len(c.Powers) > 1 {
 		base = append(base, engb.LBlock{Dt: 1, Absent: []int{0, 1}})
 	}
